@@ -615,6 +615,14 @@ def d_validate( ctx ):
             res.ok( src, s, 'reply_elements call dominates the store' )
         else:
             res.bad( src, s, s, 'a path reaches the tag store without passing reply_elements' )
+        # every refusal is decided ahead of the store: behind it nothing refuses any more ( a configured error code included )
+        behind = cfg.reachable( [ m for m, label in cfg.succ[node] if label != 'exc' ], edge_ok=lambda a_, b_, label: label != 'exc' )
+        late = sorted(( n_ for n_ in behind if n_.kind == 'stmt' and isinstance( n_.stmt, ( ast.Assert, ast.Raise )) and n_ is not node ), key=lambda n_: n_.stmt.lineno )
+        if late:
+            res.bad( src, late[0].stmt, 'a refusal ( %s ) is reachable behind the tag store of Logix.request' % norm_text( late[0].stmt )[:60],
+                     'a Write Tag refused there is answered with a failure status although the tag already holds the new values' )
+        else:
+            res.ok( src, s, 'nothing behind the tag store of Logix.request refuses the request' )
         # the stored slice bounds must be the ones reply_elements returned
         if isinstance( s, ast.Assign ) and isinstance( s.targets[0], ast.Subscript ) and isinstance( s.targets[0].slice, ast.Slice ):
             sl = s.targets[0].slice
@@ -3632,6 +3640,55 @@ def s_standin( ctx ):
                                  'the failure is answered under another service code than the request\'s: the peer pairs replies with requests by it', func=qn )
     if n < 2:
         raise AnalysisError( 'S-STANDIN: expected the stand-ins of the lone request and of the bundle member, found %d' % n )
+    return res
+
+
+@rule( 'K-REOPEN', props=( 'C14', 'C06' ), floor=2 )
+def k_reopen( ctx ):
+    """Connection_Manager.forward_open, a connection that is already established ( same peer, same O->T connection ID ): the Forward Open that
+    repeats its parameters succeeds, one that differs in a parameter is refused - decided by value: the branch taken for a known connection is
+    evaluated on the kept request and an identical / a differing new one.  Every method it calls on the two ( dotdict ) requests exists"""
+    res = Result( 'K-REOPEN' )
+    src = ctx.src( DEVICE )
+    fn = src.get( 'Connection_Manager.forward_open' )
+    ifs = [ s_ for s_ in ast.walk( fn ) if isinstance( s_, ast.If ) and isinstance( s_.test, ast.Compare ) and isinstance( s_.test.ops[0], ast.In )
+            and dotted( s_.test.comparators[0] ) in ( 'self.forwards', 'self.__class__.forwards', 'Connection_Manager.forwards' ) ]
+    if len( ifs ) != 1:
+        raise AnalysisError( 'forward_open: the test for an established connection ( <key> in self.forwards ) found %d times' % len( ifs ))
+    branch = ifs[0]
+    key = dotted( branch.test.left )
+    table = dotted( branch.test.comparators[0] )
+    # the methods a dotdict has: dict's and those its class defines
+    dd = ctx.src( 'dotdict.py' )
+    known = set( dir( dict )) | { f.name for c_ in dd.tree.body if isinstance( c_, ast.ClassDef ) for f in c_.body if isinstance( f, ast.FunctionDef ) }
+    free = sorted( names_in( ast.Module( body=branch.body, type_ignores=[] )))
+    kept = { 'O_T.NCP': 0x43F4, 'O_T.RPI': 100000, 'T_O.NCP': 0x43F4, 'T_O.RPI': 100000, 'transport_class_triggers': 0xA3, 'connection_path': { 'segment': [ { 'class': 2 }, { 'instance': 1 } ] },
+             'O_vendor': 1, 'O_serial': 2, 'connection_serial': 3 }
+    got = []
+    for label, new in (( 'identical', dict( kept )), ( 'another RPI', dict( kept, **{ 'T_O.RPI': 200000 } )), ( 'another path', dict( kept, connection_path={ 'segment': [ { 'class': 2 }, { 'instance': 2 } ] } ))):
+        env = { key: ( 'peer', 1, 7 ), table: { ( 'peer', 1, 7 ): ( dict( kept ), None ) }, 'triplet': ( 1, 2, 3 ), 'all': all, 'any': any, 'len': len }
+        for f_ in free:
+            if f_ not in env and f_ not in ( 'self', 'all', 'any', 'log', 'logging' ):
+                env[f_] = new			# ( the new request, under whatever local name )
+        try:
+            out = run_block( branch.body, env, ignore_calls=( 'log', ))
+            got.append( out.kind )
+        except Raises as exc:
+            got.append( 'raise' )
+        except NoFold as exc:
+            alien = [ c_ for b_ in branch.body for c_ in ast.walk( b_ ) if isinstance( c_, ast.Call ) and isinstance( c_.func, ast.Attribute )
+                      and isinstance( c_.func.value, ast.Name ) and c_.func.value.id not in ( 'log', 'self', 'logging' ) and c_.func.attr not in known ]
+            if alien:
+                res.bad( src, alien[0], 'forward_open compares the kept and the new Forward Open by .%s( ... ), which neither dict nor dotdict defines' % alien[0].func.attr,
+                         'the comparison raises AttributeError: an identical Forward Open of an established connection is refused ( status 0x08 ) where it is to succeed', func='Connection_Manager.forward_open' )
+                return res
+            raise AnalysisError( 'forward_open: the branch for an established connection is outside the modelled subset: %s' % str( exc )[:80] )
+    if got == [ 'fall', 'raise', 'raise' ]:
+        res.ok( src, branch, 'a Forward Open repeating the parameters of an established connection succeeds' )
+        res.ok( src, branch, 'a Forward Open for an established connection with another RPI or path is refused' )
+    else:
+        res.bad( src, branch, 'forward_open for an established connection: identical -> %s, another RPI -> %s, another path -> %s' % tuple( got ),
+                 'the identical re-open is to succeed ( fall through ), a differing one to be refused ( raise )', func='Connection_Manager.forward_open' )
     return res
 
 
